@@ -3,6 +3,7 @@ import RV.C09.DurLemmas
 import RV.C09.DateLemmas
 import RV.C09.EqLemmas
 import RV.C09.FloatLemmas
+import RV.C09.FieldLemmas
 /-
   C09 — "Literal ↔ Python value mapping is faithful and normalisation is idempotent":
   property statements (each first as `def Statement_… : Prop` at full strength) and theorems.
@@ -455,6 +456,81 @@ theorem float_roundtrip : Statement_float_roundtrip := by
   | inf neg => cases neg <;> (simp only [floatToXsd, Option.some.injEq] at h; subst h; decide +kernel)
   | fin neg m e => exact pyFloat_floatToXsd hc h
 
+/-! ## 9. field-level values of xsd:date, xsd:time, xsd:dateTime (round h) -/
+
+/-- `Literal(s, datatype=d, normalize=nz)` when the converter is known to return `v` and the printer accepts `v`
+    (glue: value and flag of `mkLex` for the date/time datatypes) -/
+theorem mkLex_of_castLex {d : Dt} (hc : d.conv = .date ∨ d.conv = .time ∨ d.conv = .dateTime) {s : Str} {v : PyVal} (nz : Bool)
+    (hv : castLex (some d) s = some v) (hp : (pyLex v (some d)).isSome = true) :
+    ∃ l, mkLex (some d) s nz = some l ∧ l.ill = some false ∧ l.value = some v := by
+  have hpp : postProcess (some d) s = s := postProcess_of_conv (by rcases hc with e | e | e <;> rw [e] <;> decide) s
+  have hsome := mkLex_isSome_of_pyLex (dt := some d) (s := s) (nz := nz) (by
+    intro pv h; rw [hpp, hv] at h; cases h; exact hp)
+  obtain ⟨l, hl⟩ := Option.isSome_iff_exists.mp hsome
+  obtain ⟨h1, h2, _⟩ := mkLex_fields hl
+  rw [hpp, hv] at h1 h2
+  refine ⟨l, hl, ?_, h1⟩
+  have hw : wellFormed d s (some v) = true := by
+    rw [wellFormed_nobounds (by rcases hc with e | e | e <;> (intro hb; rw [hb] at e; cases e))
+      (by cases d <;> first | rfl | (rcases hc with e | e | e <;> cases e))]
+    rfl
+  rw [h2]; simp [hw]
+
+/-- the value XSD assigns, field by field, for the three date/time datatypes — on every form of the lexical space that
+    CPython's `date` / `time` / `datetime` can hold (year 0001…9999, not the end-of-day form `24:00:00`):
+    * xsd:time: hour, minute, second and zone (minutes → microseconds) exactly as XSD reads them; the fraction truncated to
+      microseconds — equal to XSD's fraction whenever it has at most six significant digits (else finding C09-K2);
+      then the time of day Python compares (`todMicros`) is XSD's local time, and for zoned values
+      `todMicros − utcoffset` is XSD's position on the timeline;
+    * xsd:dateTime: year, month, day and the same time fields;
+    * xsd:date: year, month, day; a zone is dropped (this is exactly finding C09-K3).
+    With either setting of `normalize`; never flagged ill-typed. -/
+def Statement_lex_to_value_fields : Prop :=
+  (∀ (s : Str) (nz : Bool), Spec.timeLex s = true → (Spec.timeVal s).hour ≠ 24 →
+    ∃ l us, mkLex (some .time) s nz = some l ∧ l.ill = some false ∧
+      l.value = some (.time (Spec.timeVal s).hour (Spec.timeVal s).minute (Spec.timeVal s).second us
+        ((Spec.timeVal s).tz.map (· * 60000000))) ∧
+      ((Spec.timeVal s).frac.length ≤ 6 →
+        us = Spec.fracMicros (Spec.timeVal s).frac ∧
+        todMicros (Spec.timeVal s).hour (Spec.timeVal s).minute (Spec.timeVal s).second us = (Spec.timeVal s).localMicros ∧
+        ∀ z, (Spec.timeVal s).tz = some z →
+          some (todMicros (Spec.timeVal s).hour (Spec.timeVal s).minute (Spec.timeVal s).second us - z * 60000000) =
+            (Spec.timeVal s).utcMicros)) ∧
+  (∀ (s : Str) (nz : Bool), Spec.dateTimeLex s = true →
+    1 ≤ (Spec.dateTimeVal s).1.year ∧ (Spec.dateTimeVal s).1.year ≤ 9999 → (Spec.dateTimeVal s).2.hour ≠ 24 →
+    ∃ l us, mkLex (some .dateTime) s nz = some l ∧ l.ill = some false ∧
+      l.value = some (.datetime (Spec.dateTimeVal s).1.year.toNat (Spec.dateTimeVal s).1.month (Spec.dateTimeVal s).1.day
+        (Spec.dateTimeVal s).2.hour (Spec.dateTimeVal s).2.minute (Spec.dateTimeVal s).2.second us
+        ((Spec.dateTimeVal s).2.tz.map (· * 60000000))) ∧
+      ((Spec.dateTimeVal s).2.frac.length ≤ 6 → us = Spec.fracMicros (Spec.dateTimeVal s).2.frac)) ∧
+  (∀ (s : Str) (nz : Bool), Spec.dateLex s = true →
+    1 ≤ (Spec.dateVal s).1.year ∧ (Spec.dateVal s).1.year ≤ 9999 →
+    ∃ l, mkLex (some .date) s nz = some l ∧ l.ill = some false ∧
+      l.value = some (.date (Spec.dateVal s).1.year.toNat (Spec.dateVal s).1.month (Spec.dateVal s).1.day))
+
+theorem lex_to_value_fields : Statement_lex_to_value_fields := by
+  refine ⟨?_, ?_, ?_⟩
+  · intro s nz h h24
+    obtain ⟨us, hp, hus⟩ := pyTimeFromIso_xsd h h24
+    obtain ⟨l, h1, h2, h3⟩ := mkLex_of_castLex (d := .time) (Or.inr (Or.inl rfl)) nz
+      (show castLex (some .time) s = some _ from hp) rfl
+    refine ⟨l, us, h1, h2, h3, fun hl => ?_⟩
+    have e := hus hl
+    refine ⟨e, ?_, ?_⟩
+    · simp [todMicros, Spec.TimeV.localMicros, e]
+    · intro z hz
+      simp [todMicros, Spec.TimeV.utcMicros, Spec.TimeV.localMicros, hz, e]
+  · intro s nz h hy h24
+    obtain ⟨us, hp, hus⟩ := pyDateTimeFromIso_xsd h hy h24
+    obtain ⟨l, h1, h2, h3⟩ := mkLex_of_castLex (d := .dateTime) (Or.inr (Or.inr rfl)) nz
+      (show castLex (some .dateTime) s = some _ from hp) rfl
+    exact ⟨l, us, h1, h2, h3, hus⟩
+  · intro s nz h hy
+    have hp := parseXsdDate_xsd h hy
+    obtain ⟨l, h1, h2, h3⟩ := mkLex_of_castLex (d := .date) (Or.inl rfl) nz
+      (show castLex (some .date) s = some _ from hp) rfl
+    exact ⟨l, h1, h2, h3⟩
+
 /-! ## Non-vacuity: the hypotheses are met by concrete, non-trivial instances -/
 
 example : XsdTz (some (-50400000000)) ∧ ¬ XsdTz (some 1000000) ∧ TzOk (some 86340000000) := by
@@ -474,6 +550,12 @@ example : floatToXsd (.fin false 7205759403792794 (-56)) = some "0.1".toList ∧
     pyFloat "0.1".toList = some (.fin false 7205759403792794 (-56)) ∧
     floatToXsd (.fin true 5000000000000000 1) = some "-1e+16".toList ∧
     floatToXsd (.fin false 1 (-1074)) = some "5e-324".toList ∧ pyFloat "5e-324".toList = some (.fin false 1 (-1074)) := by
+  decide +kernel
+example : Spec.timeLex "23:59:59.1230000-14:00".toList = true ∧ (Spec.timeVal "23:59:59.1230000-14:00".toList).hour ≠ 24 ∧
+    (Spec.timeVal "23:59:59.1230000-14:00".toList).frac.length ≤ 6 ∧
+    (Spec.timeVal "23:59:59.1230000-14:00".toList).utcMicros = some 136799123000 ∧
+    Spec.dateTimeLex "9999-12-31T00:00:00Z".toList = true ∧ (Spec.dateTimeVal "9999-12-31T00:00:00Z".toList).1.year = 9999 ∧
+    Spec.dateLex "0001-02-28+05:30".toList = true ∧ (Spec.dateVal "0001-02-28+05:30".toList).1.year = 1 := by
   decide +kernel
 example : Spec.validLex .unsignedByte "+0255".toList = true ∧ Covered .unsignedByte = true := by decide
 example : Spec.validLex .decimal "-.50".toList = true ∧ Covered .decimal = true := by decide
